@@ -7,6 +7,7 @@ import (
 	"strings"
 
 	pipeline "github.com/buildkite/go-pipeline"
+	"github.com/buildkite/go-pipeline/ordered"
 	"github.com/buildkite/go-pipeline/warning"
 	"verifharness/sx"
 )
@@ -128,6 +129,46 @@ func c15map(hasType bool, ty string, mask int, extras map[string]any, form strin
 		return
 	}
 	stat("C15", "map-"+strings.SplitN(got, ":", 2)[0])
+	// the same step handed over as an ordered map that was edited first: keys of other kinds (and a `type`) that
+	// were set and then deleted again do not count, whatever traces they left in the map's storage
+	if form == "plain" && mask%3 == 0 {
+		om := ordered.NewMap[string, any](0)
+		om.Set("label", "edited")
+		om.Set("zz_padding", 1)
+		var dead []string
+		if !hasType {
+			om.Set("type", "trigger")
+			dead = append(dead, "type")
+		}
+		for i, k := range c15keys {
+			if mask&(1<<i) == 0 && (i+mask)%2 == 0 {
+				om.Set(k, c15vals[k])
+				dead = append(dead, k)
+			}
+		}
+		if decoded, derr := decodeText(string(b)); derr == nil {
+			if src, ok := decoded.(*ordered.MapSA); ok {
+				src.Range(func(k string, v any) error { om.Set(k, v); return nil })
+			}
+		}
+		for _, k := range dead {
+			om.Delete(k)
+		}
+		doc := ordered.NewMap[string, any](0)
+		doc.Set("steps", []any{om})
+		var p pipeline.Pipeline
+		uerr := ordered.Unmarshal(doc, &p)
+		ce := sx.L(sx.A("edited-map"), sx.Opt(hasType, sx.A(ty)), kl, sx.A(strings.Join(dead, ",")))
+		if uerr != nil && !warning.Is(uerr) || len(p.Steps) != 1 {
+			oracleFail("C15", "hard-error-edited", ce, fmt.Sprintf("unmarshalling the edited map: %v (%d steps)", uerr, len(p.Steps)))
+			return
+		}
+		if got2 := c15kindOf(p.Steps[0], uerr); got2 != want {
+			oracleFail("C15", "kind-edited", ce, fmt.Sprintf("step %s, handed over as an ordered map from which the keys %v had been deleted, became %s; rule table says %s", b, dead, got2, want))
+			return
+		}
+		stat("C15", "edited-map")
+	}
 	nt := "1"
 	if mask == 0 && !hasType {
 		nt = "0"
